@@ -45,6 +45,7 @@ package inmem
 //@   invariant [shape] ringShape(self)
 //@   invariant [ring] ringWindow(self)
 //@   invariant [logwf] logWF(self)
+//@   invariant [storage] storageWF(self)
 //@   rely [mono] old(self.writePos) <= self.writePos && old(self.capacity) <= self.capacity
 //@   rely [log-stable] forall p int64 :: 0 <= p && p < old(self.writePos) ==> self.log[p] == old(self.log[p])
 //@
@@ -55,6 +56,10 @@ package inmem
 //@ pred isCUD(t state.EventType) := t == state.Created || t == state.Updated || t == state.Destroyed
 //@ pred eventWF(e state.Event, p int64) := e.Resource != nil && isBookmarkOf(e.Bookmark, p) && isCUD(e.Type) &&
 //@   (e.Type == state.Updated ==> e.Old != nil)
+//@ pred storedOK(r resource.Resource, id string) := r != nil && mdOf(r) != nil && mdOf(r).id == id && allocated(mdOf(r)) && allocated(r) &&
+//@   !typeis(r, "*resource.Tombstone")
+//@ pred storageWF(c *ResourceCollection) := c.storage != nil && (forall k string :: in(k, c.storage) ==> storedOK(c.storage[k], k) &&
+//@   mdOf(c.storage[k]).blk != c.stream.blk)
 //@ pred logWF(c *ResourceCollection) := forall p int64 :: 0 <= p && p < c.writePos ==> eventWF(c.log[p], p)
 //@
 //@ func (*ResourceCollection).publish
@@ -74,6 +79,7 @@ package inmem
 //@     collection.log[old(collection.writePos)].Resource == event.Resource &&
 //@     collection.log[old(collection.writePos)].Old == event.Old && collection.log[old(collection.writePos)].Error == event.Error
 //@   ensures [log-stable] forall p int64 :: 0 <= p && p < old(collection.writePos) ==> collection.log[p] == old(collection.log[p])
+//@   ensures [stream-block] collection.stream.blk == old(collection.stream.blk) || fresh(collection.stream)
 
 //@ func NewResourceCollection
 //@   props C02
@@ -143,3 +149,146 @@ package inmem
 //@   at SendWithContext #3
 //@     assert [deliver-next-match] acq(pos) <= pos - 1 && pos <= collection.writePos && event == collection.log[pos-1] && idOfEvent(event) == id
 //@     assert [deliver-none-skipped; using scan-nomatch, scan-last, scan-event] forall q int64 :: acq(pos) <= q && q < pos - 1 ==> idOfEvent(collection.log[q]) != id
+
+// ---------------------------------------------------------------------------
+// Errors: every constructor fixes the class of the error it builds.
+
+//@ type eConflict
+//@   invariant [conflict-has-resource] self.resource != nil
+//@
+//@ func ErrNotFound
+//@   props C01
+//@   ensures [class] result != nil && typeis(result, "eNotFound")
+//@ func ErrAlreadyExists
+//@   props C01
+//@   requires r != nil
+//@   ensures [class] result != nil && typeis(result, "eConflict")
+//@ func ErrVersionConflict
+//@   props C01
+//@   requires r != nil
+//@   ensures [class] result != nil && typeis(result, "eConflict")
+//@ func ErrPendingFinalizers
+//@   props C01 C03
+//@   ensures [class] result != nil && typeis(result, "eConflict")
+//@ func ErrOwnerConflict
+//@   props C01
+//@   requires r != nil
+//@   ensures [class] result != nil && typeis(result, "eOwnerConflict")
+//@ func ErrPhaseConflict
+//@   props C01
+//@   requires r != nil
+//@   ensures [class] result != nil && typeis(result, "ePhaseConflict")
+//@ func (eConflict).GetResource
+//@   props C01
+//@   ensures [nonnil] result != nil
+
+// ---------------------------------------------------------------------------
+// Collection operations against the sequential specification. acq(e) is e in the state right after
+// the lock was acquired (the linearisation point lies inside that critical section).
+
+//@ ghostvar lastPutOK bool
+//@ ghostvar lastDestroyOK bool
+//@ iface BackingStore.Put
+//@   modifies lastPutOK
+//@   ensures lastPutOK == (err == nil)
+//@ iface BackingStore.Destroy
+//@   modifies lastDestroyOK
+//@   ensures lastDestroyOK == (err == nil)
+//@
+//@ pred verVal(r resource.Resource) := ite(mdOf(r).ver.uint64 == nil, 0, *mdOf(r).ver.uint64)
+//@ pred finsEmpty(r resource.Resource) := len(mdOf(r).fins) == 0
+//@ pred sameStorageExcept(c *ResourceCollection, id string) := forall k string :: k != id ==>
+//@   (in(k, c.storage) <==> acq(in(k, c.storage))) && c.storage[k] == acq(c.storage[k])
+//@ pred sameStorage(c *ResourceCollection) := forall k string ::
+//@   (in(k, c.storage) <==> acq(in(k, c.storage))) && c.storage[k] == acq(c.storage[k])
+//@
+//@ func (*ResourceCollection).Get
+//@   props C01 C19
+//@   autouse storage
+//@   requires collection != nil
+//@   ensures [get-notfound] !acq(in(resourceID, collection.storage)) ==> result0 == nil && err != nil && typeis(err, "eNotFound")
+//@   ensures [get-found] acq(in(resourceID, collection.storage)) ==> err == nil && result0 != nil && fresh(result0) && fresh(mdOf(result0)) &&
+//@     *mdOf(result0) == acq(*mdOf(collection.storage[resourceID])) && specOf(result0) == specOf(acq(collection.storage[resourceID]))
+//@   ensures [get-readonly; using -] sameStorage(collection) && collection.writePos == acq(collection.writePos)
+//@
+//@ func (*ResourceCollection).Destroy
+//@   props C01 C03 C10
+//@   autouse storage
+//@   requires collection != nil && ptr != nil
+//@   ensures [destroy-notfound] !acq(in(id, collection.storage)) ==> err != nil && typeis(err, "eNotFound")
+//@   ensures [destroy-owner] acq(in(id, collection.storage)) && acq(mdOf(collection.storage[id]).owner) != owner ==> err != nil && typeis(err, "eOwnerConflict")
+//@   ensures [destroy-finalizers] acq(in(id, collection.storage)) && acq(mdOf(collection.storage[id]).owner) == owner && !acq(finsEmpty(collection.storage[id])) ==>
+//@     err != nil && typeis(err, "eConflict")
+//@   ensures [destroy-success-needs] err == nil ==> acq(in(id, collection.storage)) && acq(mdOf(collection.storage[id]).owner) == owner && acq(finsEmpty(collection.storage[id])) &&
+//@     (collection.store == nil || lastDestroyOK)
+//@   ensures [destroy-success-when] acq(in(id, collection.storage)) && acq(mdOf(collection.storage[id]).owner) == owner && acq(finsEmpty(collection.storage[id])) && collection.store == nil ==> err == nil
+//@   ensures [destroy-effect] err == nil ==> !in(id, collection.storage) && collection.writePos == acq(collection.writePos) + 1 &&
+//@     collection.log[acq(collection.writePos)].Type == state.Destroyed && collection.log[acq(collection.writePos)].Resource == acq(collection.storage[id])
+//@   ensures [destroy-others; using -] err == nil ==> sameStorageExcept(collection, id)
+//@   ensures [destroy-fail-untouched; using -] err != nil ==> sameStorage(collection) && collection.writePos == acq(collection.writePos)
+
+//@ func (*ResourceCollection).inject
+//@   inline
+//@
+//@ pred createOwnerOK(res resource.Resource, owner string) := old(mdOf(res).owner) == "" || old(mdOf(res).owner) == owner
+//@
+//@ func (*ResourceCollection).Create
+//@   props C01 C10 C19
+//@   autouse storage
+//@   requires collection != nil && res != nil
+//@   requires [res-wellformed] mdOf(res) != nil && allocated(mdOf(res)) && allocated(res) && !typeis(res, "*resource.Tombstone")
+//@   assume_at_acquire [caller-isolation] forall k string :: in(k, collection.storage) ==> mdOf(collection.storage[k]).blk != mdOf(res).blk
+//@   assume_at_acquire [copy-private] forall k string :: in(k, collection.storage) ==> mdOf(collection.storage[k]).blk != mdOf(resCopy).blk
+//@   ensures [create-owner-mismatch] !createOwnerOK(res, owner) ==> err != nil
+//@   ensures [create-exists] createOwnerOK(res, owner) && acq(in(old(mdOf(res).id), collection.storage)) ==> err != nil && typeis(err, "eConflict")
+//@   ensures [create-success-needs] err == nil ==> createOwnerOK(res, owner) && !acq(in(old(mdOf(res).id), collection.storage)) && (collection.store == nil || lastPutOK)
+//@   ensures [create-success-when] createOwnerOK(res, owner) && !acq(in(old(mdOf(res).id), collection.storage)) && collection.store == nil ==> err == nil
+//@   ensures [create-effect] err == nil ==> in(old(mdOf(res).id), collection.storage) && verVal(collection.storage[old(mdOf(res).id)]) == 1 &&
+//@     mdOf(collection.storage[old(mdOf(res).id)]).owner == owner && specOf(collection.storage[old(mdOf(res).id)]) == specOf(res) &&
+//@     mdOf(collection.storage[old(mdOf(res).id)]).phase == old(mdOf(res).phase) &&
+//@     collection.writePos == acq(collection.writePos) + 1 && collection.log[acq(collection.writePos)].Type == state.Created &&
+//@     collection.log[acq(collection.writePos)].Resource == collection.storage[old(mdOf(res).id)]
+//@   ensures [create-fresh-copy] err == nil ==> fresh(collection.storage[old(mdOf(res).id)]) && fresh(mdOf(collection.storage[old(mdOf(res).id)]))
+//@   ensures [create-others; using -] err == nil ==> sameStorageExcept(collection, old(mdOf(res).id))
+//@   ensures [create-fail-untouched; using -] err != nil ==> sameStorage(collection) && collection.writePos == acq(collection.writePos)
+//@   ensures [create-writeback] err == nil ==> *mdOf(res) == *mdOf(collection.storage[old(mdOf(res).id)])
+
+//@ pred updFound(c *ResourceCollection, r resource.Resource) := acq(in(old(mdOf(r).id), c.storage))
+//@ pred updOwnerOK(c *ResourceCollection, r resource.Resource, o *state.UpdateOptions) := acq(mdOf(c.storage[old(mdOf(r).id)]).owner) == old(o.Owner)
+//@ pred updVerOK(c *ResourceCollection, r resource.Resource) :=
+//@   ite(acq(mdOf(c.storage[old(mdOf(r).id)]).ver.uint64) == nil || old(mdOf(r).ver.uint64) == nil,
+//@       acq(mdOf(c.storage[old(mdOf(r).id)]).ver.uint64) == nil && old(mdOf(r).ver.uint64) == nil,
+//@       acq(*mdOf(c.storage[old(mdOf(r).id)]).ver.uint64) == old(*mdOf(r).ver.uint64))
+//@ pred updPhaseOK(c *ResourceCollection, r resource.Resource, o *state.UpdateOptions) :=
+//@   old(o.ExpectedPhase) == nil || acq(mdOf(c.storage[old(mdOf(r).id)]).phase) == old(*o.ExpectedPhase)
+//@
+//@ func (*ResourceCollection).Update
+//@   props C01 C10 C19
+//@   autouse storage
+//@   requires collection != nil && newResource != nil && options != nil
+//@   requires [options-wellformed] options.ExpectedPhase == nil || allocated(options.ExpectedPhase)
+//@   requires [res-wellformed] mdOf(newResource) != nil && allocated(mdOf(newResource)) && allocated(newResource) && !typeis(newResource, "*resource.Tombstone")
+//@   assume_at_acquire [caller-isolation] forall k string :: in(k, collection.storage) ==> mdOf(collection.storage[k]).blk != mdOf(newResource).blk
+//@   assume_at_acquire [copy-private] forall k string :: in(k, collection.storage) ==> mdOf(collection.storage[k]).blk != mdOf(newResourceCopy).blk
+//@   ensures [update-notfound] !updFound(collection, newResource) ==> err != nil && typeis(err, "eNotFound")
+//@   ensures [update-owner] updFound(collection, newResource) && !updOwnerOK(collection, newResource, options) ==> err != nil && typeis(err, "eOwnerConflict")
+//@   ensures [update-version] updFound(collection, newResource) && updOwnerOK(collection, newResource, options) && !updVerOK(collection, newResource) ==>
+//@     err != nil && typeis(err, "eConflict")
+//@   ensures [update-phase] updFound(collection, newResource) && updOwnerOK(collection, newResource, options) && updVerOK(collection, newResource) &&
+//@     !updPhaseOK(collection, newResource, options) ==> err != nil && typeis(err, "ePhaseConflict")
+//@   ensures [update-success-needs] err == nil ==> updFound(collection, newResource) && updOwnerOK(collection, newResource, options) &&
+//@     updVerOK(collection, newResource) && updPhaseOK(collection, newResource, options) && (collection.store == nil || lastPutOK)
+//@   ensures [update-success-when] updFound(collection, newResource) && updOwnerOK(collection, newResource, options) && updVerOK(collection, newResource) &&
+//@     updPhaseOK(collection, newResource, options) && collection.store == nil ==> err == nil
+//@   ensures [update-effect-stored] err == nil ==> in(old(mdOf(newResource).id), collection.storage)
+//@   ensures [update-effect-version] err == nil ==> verVal(collection.storage[old(mdOf(newResource).id)]) == acq(verVal(collection.storage[old(mdOf(newResource).id)])) + 1
+//@   ensures [update-effect-created] err == nil ==> mdOf(collection.storage[old(mdOf(newResource).id)]).created == acq(mdOf(collection.storage[old(mdOf(newResource).id)]).created)
+//@   ensures [update-effect-owner] err == nil ==> mdOf(collection.storage[old(mdOf(newResource).id)]).owner == old(mdOf(newResource).owner)
+//@   ensures [update-effect-spec] err == nil ==> specOf(collection.storage[old(mdOf(newResource).id)]) == specOf(newResource)
+//@   ensures [update-effect-log] err == nil ==> collection.writePos == acq(collection.writePos) + 1 && collection.log[acq(collection.writePos)].Type == state.Updated &&
+//@     collection.log[acq(collection.writePos)].Resource == collection.storage[old(mdOf(newResource).id)] &&
+//@     collection.log[acq(collection.writePos)].Old == acq(collection.storage[old(mdOf(newResource).id)])
+//@   ensures [update-fresh-copy] err == nil ==> fresh(collection.storage[old(mdOf(newResource).id)]) && fresh(mdOf(collection.storage[old(mdOf(newResource).id)]))
+//@   ensures [update-others; using -] err == nil ==> sameStorageExcept(collection, old(mdOf(newResource).id))
+//@   ensures [update-fail-untouched; using -] err != nil ==> sameStorage(collection) && collection.writePos == acq(collection.writePos)
+//@   ensures [update-writeback] err == nil ==> *mdOf(newResource) == *mdOf(collection.storage[old(mdOf(newResource).id)])
